@@ -165,11 +165,26 @@ def to_str(I, v):
         return VStr(z3.If(v.t, z3.StringVal('True'), z3.StringVal('False')))
     if isinstance(v, VNone):
         return VStr('None')
+    if isinstance(v, VAny) and I is not None and I.spec_mode == 0:
+        used('str(any)')
+        t = v.t
+        if I.decide(Val.is_str(t), 'str()-of-str'):
+            return VStr(Val.s(t))
+        if I.decide(Val.is_tok(t), 'str()-of-token'):
+            return VStr(TokenSort.s(Val.t(t)))
+        if I.decide(Val.is_obj(t), 'str()-of-object'):
+            return VStr(f_str_of(t))
     if isinstance(v, VAny):
         used('str(any)')
         t = v.t
+        i = Val.i(t)
         return VStr(z3.If(Val.is_str(t), Val.s(t),
-                    z3.If(Val.is_tok(t), TokenSort.s(Val.t(t)), f_str_of(t))))
+                    z3.If(Val.is_tok(t), TokenSort.s(Val.t(t)),
+                    z3.If(Val.is_int(t), z3.If(i >= 0, z3.IntToStr(i),
+                                               z3.Concat(z3.StringVal('-'), z3.IntToStr(-i))),
+                    z3.If(Val.is_none(t), z3.StringVal('None'),
+                    z3.If(Val.is_bool(t), z3.If(Val.b(t), z3.StringVal('True'),
+                                                z3.StringVal('False')), f_str_of(t)))))))
     if isinstance(v, VConc):
         return VStr(str(v.obj))
     if isinstance(v, VOpt):
@@ -311,10 +326,13 @@ def compare(I, op, a, b):
         return eq(a, b)
     if isinstance(op, ast.NotEq):
         return z3.Not(eq(a, b))
-    if isinstance(op, ast.Is):
-        return ident(a, b)
-    if isinstance(op, ast.IsNot):
-        return z3.Not(ident(a, b))
+    if isinstance(op, (ast.Is, ast.IsNot)):
+        if isinstance(a, VTypeOf) or isinstance(b, VTypeOf):
+            t, c = (a, b) if isinstance(a, VTypeOf) else (b, a)
+            r = exact_type_term(I, t.v, c.obj)
+        else:
+            r = ident(a, b)
+        return r if isinstance(op, ast.Is) else z3.Not(r)
     if isinstance(op, (ast.In, ast.NotIn)):
         c = contains(I, b, a)
         return c if isinstance(op, ast.In) else z3.Not(c)
@@ -360,6 +378,12 @@ def contains(I, container, item):
         return z3.Contains(container.t, z3.Unit(unwrap(container.ty, item)))
     if isinstance(container, VRec):
         return I.vc.method_contract(I, container, '__contains__', [item], {}).t
+    if isinstance(container, VAny):
+        t = container.t
+        if I.spec_mode == 0 and not I.decide(z3.Or(Val.is_str(t), Val.is_tok(t)), 'in-str'):
+            raise Unsupported('`in` on a dynamically typed non-string')
+        st = z3.If(Val.is_tok(t), TokenSort.s(Val.t(t)), Val.s(t))
+        return z3.Contains(st, strterm(item))
     raise Unsupported('`in` on %r' % (container,))
 
 
@@ -405,6 +429,14 @@ def get_attr(I, obj, name):
         if name == 'msg' and obj.args:
             return obj.args[0]
         raise Unsupported('exception attribute %s' % name)
+    if isinstance(obj, VAny) and name == '__html__':
+        used('getattr(any, "__html__") (uninterpreted; absent on None/bool/int/str/bytes/Token)')
+        t = obj.t
+        h = f_html_of(t)
+        I.assume(z3.Implies(z3.Not(Val.is_obj(t)), Val.is_none(h)))
+        if I.spec_mode == 0 and I.decide(Val.is_none(h), 'no-__html__'):
+            raise Raised(VExc(AttributeError, [VStr(name)]))
+        return VAny(h)
     if isinstance(obj, VAny) and I.spec_mode and name in ('pos', 'source', 'filename'):
         tk = wrap(Ty('Token'), Val.t(obj.t))
         return get_attr(I, tk, name)
@@ -844,6 +876,9 @@ def apply(I, fv, args, kwargs, callnode=None):
         if isinstance(o, Closure):
             return I.call_closure(o, args, kwargs)
         return builtin(I, o, args, kwargs, callnode)
+    if isinstance(fv, VAny) and not args and not kwargs:
+        used('call of an opaque object (uninterpreted result)')
+        return VAny(f_call0(fv.t))
     raise Unsupported('call of %r' % (fv,))
 
 
@@ -1098,6 +1133,23 @@ def type_of(I, v):
     if isinstance(v, VRec):
         return VConc(I.vc.rec_class(v))
     raise Unsupported('type(%r)' % (v,))
+
+
+def exact_type_term(I, v, cls):
+    """type(v) is cls, for v: Any"""
+    t = v.t
+    if cls is str:
+        return Val.is_str(t)
+    if cls is bytes:
+        return Val.is_bytes(t)
+    if cls is int:
+        return Val.is_int(t)
+    if cls is bool:
+        return Val.is_bool(t)
+    if cls is type(None):
+        return Val.is_none(t)
+    from .values import conc_oid
+    return z3.And(Val.is_obj(t), f_typeid(Val.oid(t)) == conc_oid(cls))
 
 
 class VTypeOf(V):
@@ -1372,12 +1424,19 @@ def strip_model(I, s, cre, which, key='ws'):
 
 
 def replace_model(I, s, old, new, count):
-    f = z3.Function('str_replace_all', z3.StringSort(), z3.StringSort(), z3.StringSort(),
-                    z3.StringSort())
+    """str.replace(old, new) (all occurrences).  Exact when the subject is built from string
+    constants, if-then-else and terms registered as single characters (I.ghost['chars']) and
+    `old` is a single character; otherwise an uninterpreted function with sound partial axioms."""
     if count is not None:
         c = z3.simplify(as_int(count))
         if not (z3.is_int_value(c) and c.as_long() < 0):
             raise Unsupported('str.replace with a count')
+    exact = _replace_exact(I, z3.simplify(s), z3.simplify(old), z3.simplify(new))
+    if exact is not None:
+        used('str.replace (exact on single-character instances)')
+        return exact
+    f = z3.Function('str_replace_all', z3.StringSort(), z3.StringSort(), z3.StringSort(),
+                    z3.StringSort())
     r = f(s, old, new)
     I.assume(z3.Implies(z3.Not(z3.Contains(s, old)), r == s))
     I.assume(z3.Implies(old == new, r == s))
@@ -1385,6 +1444,38 @@ def replace_model(I, s, old, new, count):
                         z3.Length(r) == z3.Length(s)))
     I.assume(z3.Implies(z3.And(old == s, z3.Length(old) > 0), r == new))
     return r
+
+
+def _is_char(I, t):
+    if z3.is_string_value(t):
+        return len(decode_z3_string(t.as_string())) == 1
+    return any(t.eq(c) for c in I.ghost.get('chars', []))
+
+
+def _replace_exact(I, s, old, new):
+    if not _is_char(I, old):
+        return None
+
+    def rec(t):
+        if z3.is_string_value(t):
+            txt = decode_z3_string(t.as_string())
+            if z3.is_string_value(old) and z3.is_string_value(new):
+                return z3.StringVal(txt.replace(decode_z3_string(old.as_string()),
+                                                decode_z3_string(new.as_string())))
+            # symbolic single-character pattern against a constant subject
+            parts = [z3.If(z3.StringVal(ch) == old, new, z3.StringVal(ch)) for ch in txt]
+            if not parts:
+                return t
+            return z3.Concat(*parts) if len(parts) > 1 else parts[0]
+        if z3.is_app(t) and t.decl().kind() == z3.Z3_OP_ITE:
+            a, b = rec(t.arg(1)), rec(t.arg(2))
+            if a is None or b is None:
+                return None
+            return z3.If(t.arg(0), a, b)
+        if _is_char(I, t):
+            return z3.If(t == old, new, t)
+        return None
+    return rec(s)
 
 
 def case_model(I, s, which):
